@@ -1,5 +1,6 @@
 SPECIFICATION Spec
 CONSTANTS
+  Admission = TRUE
   Clusters = {"a", "b", "c"}
   Aliases = {"x", "y"}
   Variant = "event"
